@@ -473,6 +473,9 @@ func (a *Analyzer) external0(fr *frame, site ssa.Instruction, name string, sig *
 				nb.Val = args[2]
 			}
 			nb.Aux = w
+			if a.OnAppendUint != nil && len(args) > 2 {
+				a.OnAppendUint(fr.fn, site, st, s, w, args[2], strings.Contains(name, "littleEndian"))
+			}
 			return one(&Slice{Base: nb, Off: Const(0), Len: s.Len.AddC(w)})
 		}
 	}
@@ -814,6 +817,13 @@ func (a *Analyzer) callback(fr *frame, site ssa.Instruction, st *State, args []T
 		// contents) the body itself modifies.
 		dropped := map[Loc]Term{}
 		verDropped := map[int]bool{}
+		// while a library function drives this closure, the closure's own range-over-func state is the library's
+		// responsibility (maps.Keys, slices.Values, … stop calling yield once it returned false)
+		if a.extCallback == nil {
+			a.extCallback = map[*ssa.Function]int{}
+		}
+		a.extCallback[cl.Fn]++
+		defer func(f *ssa.Function) { a.extCallback[f]-- }(cl.Fn)
 		for iter := 0; iter < 12; iter++ {
 			S := st.Clone()
 			for l, u := range dropped {
